@@ -25,10 +25,10 @@ use crate::service::{BlockFilterRpc, BlockFilterRpcImpl};
 use crate::storage::{verif_hook, ScriptType, Storage, StorageWithChainData};
 
 #[derive(Clone, Copy, PartialEq, Debug)]
-enum Act { SetScripts, Filters, Block, Fork }
+enum Act { SetScripts, Filters, Block, Fork, Tick }
 impl Act {
-    fn name(&self) -> &'static str { match self { Act::SetScripts => "set_scripts", Act::Filters => "filter-batch", Act::Block => "block-arrival", Act::Fork => "fork-switch" } }
-    fn kind(&self) -> u64 { match self { Act::SetScripts => 0, Act::Filters => 1, Act::Block => 2, Act::Fork => 3 } }
+    fn name(&self) -> &'static str { match self { Act::SetScripts => "set_scripts", Act::Filters => "filter-batch", Act::Block => "block-arrival", Act::Fork => "fork-switch", Act::Tick => "filter-timer" } }
+    fn kind(&self) -> u64 { match self { Act::SetScripts => 0, Act::Filters => 1, Act::Block => 2, Act::Fork => 3, Act::Tick => 4 } }
 }
 
 struct Prepared {
@@ -39,7 +39,11 @@ struct Prepared {
     set_start: u64,
 }
 
-fn prepare(plan: &Plan) -> Option<Prepared> {
+fn prepare(plan: &Plan) -> Option<Prepared> { prepare_w(plan, false) }
+
+/// `window`: the in-memory matched blocks are gone (restart / rollback) while their record is still pending in the store:
+/// the state in which the filter timer recovers them
+fn prepare_w(plan: &Plan, window: bool) -> Option<Prepared> {
     let mut w = build(plan);
     // few remembered headers: the request for the heavier branch then starts at a header of the abandoned one, the honest
     // answer carries a reorg section and the fork switch rolls back (with many, the listed C04 finding gets in the way)
@@ -85,6 +89,7 @@ fn prepare(plan: &Plan) -> Option<Prepared> {
         for (_, s) in sent { if let Sent::GetLastStateProof(req) = s { if let Some(resp) = prover::respond(&w.fork.chain, &req) { fork = Some(packed::LightClientMessage::new_builder().set(resp).build().as_bytes()); } } }
     }
     let set_start = w.storage.get_min_filtered_block_number() / 2;
+    if window { if let Some(net) = w.net.as_ref() { if let Ok(mut g) = net.peers.matched_blocks().write() { g.clear(); } } }
     Some(Prepared { w, filters, block, fork, set_start })
 }
 
@@ -120,7 +125,7 @@ fn snapshot(storage: &Storage, peers: &Peers, pool: &[packed::Script], numbers: 
 /// what one experiment needs from a prepared client, moved into the threads
 struct Parts { storage: Storage, peers: Arc<Peers>, lc: crate::protocols::LightClientProtocol, fp: crate::protocols::FilterProtocol, sp: crate::protocols::SyncProtocol, lnc: super::ctx::Ctx, fnc: super::ctx::Ctx, snc: super::ctx::Ctx, peer: PeerIndex, pool: Vec<packed::Script>, filters: Option<P2pBytes>, block: Option<P2pBytes>, fork: Option<P2pBytes>, set_start: u64 }
 
-enum Runner { Set(Storage, Arc<Peers>, packed::Script, u64), Filters(crate::protocols::FilterProtocol, super::ctx::Ctx, PeerIndex, P2pBytes), Block(crate::protocols::SyncProtocol, super::ctx::Ctx, PeerIndex, P2pBytes), Fork(crate::protocols::LightClientProtocol, super::ctx::Ctx, PeerIndex, P2pBytes) }
+enum Runner { Tick(crate::protocols::FilterProtocol, super::ctx::Ctx), Set(Storage, Arc<Peers>, packed::Script, u64), Filters(crate::protocols::FilterProtocol, super::ctx::Ctx, PeerIndex, P2pBytes), Block(crate::protocols::SyncProtocol, super::ctx::Ctx, PeerIndex, P2pBytes), Fork(crate::protocols::LightClientProtocol, super::ctx::Ctx, PeerIndex, P2pBytes) }
 unsafe impl Send for Runner {}
 
 impl Runner {
@@ -132,6 +137,7 @@ impl Runner {
                 catch(|| rpc.set_scripts(vec![st], Some(crate::service::SetScriptsCommand::Partial))).is_some()
             }
             Runner::Filters(mut fp, nc, p, m) => drive(fp.received(nc.context(), p, m)).is_ok(),
+            Runner::Tick(mut fp, nc) => drive(fp.notify(nc.context(), crate::protocols::GET_BLOCK_FILTERS_TOKEN)).is_ok(),
             Runner::Block(mut sp, nc, p, m) => drive(sp.received(nc.context(), p, m)).is_ok(),
             Runner::Fork(mut lc, nc, p, m) => drive(lc.received(nc.context(), p, m)).is_ok(),
         }
@@ -144,6 +150,7 @@ fn take_runner(parts: &mut Option<Parts>, act: Act, slots: &mut (Option<crate::p
         Act::SetScripts => Some(Runner::Set(p.storage.clone(), p.peers.clone(), p.pool[2].clone(), p.set_start)),
         Act::Filters => { let m = p.filters.clone()?; Some(Runner::Filters(slots.1.take()?, super::ctx::Ctx::new(ckb_network::SupportProtocols::Filter), p.peer, m)) }
         Act::Block => { let m = p.block.clone()?; Some(Runner::Block(slots.2.take()?, super::ctx::Ctx::new(ckb_network::SupportProtocols::Sync), p.peer, m)) }
+        Act::Tick => Some(Runner::Tick(crate::protocols::FilterProtocol::new(p.storage.clone(), p.peers.clone()), super::ctx::Ctx::new(ckb_network::SupportProtocols::Filter))),
         Act::Fork => { let m = p.fork.clone()?; Some(Runner::Fork(slots.0.take()?, super::ctx::Ctx::new(ckb_network::SupportProtocols::LightClient), p.peer, m)) }
     }
 }
@@ -223,7 +230,7 @@ pub(crate) fn run(seed: u64, n: u64, out: &mut Out) {
     let guard = ckb_systemtime::faketime();
     guard.set_faketime(T0);
     let mut rng = Rng::new(seed);
-    let acts = [Act::SetScripts, Act::Filters, Act::Block, Act::Fork];
+    let acts = [Act::SetScripts, Act::Filters, Act::Block, Act::Fork, Act::Tick];
     for world in 0..n {
         let len = rng.range(26, 36);
         let fork_at = rng.range(len - 12, len - 6);
@@ -232,7 +239,7 @@ pub(crate) fn run(seed: u64, n: u64, out: &mut Out) {
         // ---- each operation alone: number of writes, lock probe at every write, outcome ----
         let mut n_writes: Vec<u64> = Vec::new();
         for act in acts {
-            let prep = match prepare(&plan) { Some(p) => p, None => { n_writes.push(0); continue; } };
+            let prep = match prepare_w(&plan, act == Act::Tick) { Some(p) => p, None => { n_writes.push(0); continue; } };
             let (parts, mut slots, _w) = split(prep);
             let mut po = Some(parts);
             let runner = match take_runner(&mut po, act, &mut slots) { Some(r) => r, None => { n_writes.push(0); continue; } };
@@ -256,9 +263,14 @@ pub(crate) fn run(seed: u64, n: u64, out: &mut Out) {
         // ---- serial outcomes and interleavings for every ordered pair ----
         for (ia, a) in acts.iter().enumerate() {
             for (ib, b) in acts.iter().enumerate() {
-                if ia == ib || n_writes[ia] == 0 || n_writes[ib] == 0 { continue; }
+                // the filter timer writes nothing: it only runs as the second operation, in the window state, next to the operations that
+                // remove pending records whatever the in-memory map holds
+                let window = *b == Act::Tick;
+                if ia == ib || n_writes[ia] == 0 || *a == Act::Tick { continue; }
+                if window && !(*a == Act::SetScripts || *a == Act::Fork) { continue; }
+                if !window && n_writes[ib] == 0 { continue; }
                 let serial = |first: Act, second: Act| -> Option<String> {
-                    let prep = prepare(&plan)?;
+                    let prep = prepare_w(&plan, window)?;
                     let (parts, mut slots, w) = split(prep);
                     let mut po = Some(parts);
                     let r1 = take_runner(&mut po, first, &mut slots)?;
@@ -275,7 +287,7 @@ pub(crate) fn run(seed: u64, n: u64, out: &mut Out) {
                 let ba = serial(*b, *a);
                 let (ab, ba) = match (ab, ba) { (Some(x), Some(y)) => (x, y), _ => continue };
                 for k in 1..=n_writes[ia] {
-                    let prep = match prepare(&plan) { Some(p) => p, None => continue };
+                    let prep = match prepare_w(&plan, window) { Some(p) => p, None => continue };
                     let (parts, mut slots, w) = split(prep);
                     let mut po = Some(parts);
                     let (ra, rb) = match (take_runner(&mut po, *a, &mut slots), take_runner(&mut po, *b, &mut slots)) { (Some(x), Some(y)) => (x, y), _ => continue };
